@@ -31,14 +31,15 @@ def run(ck):
         "Together with C08 (equal keys => equal legal moves, rules re-run here) and C15's sequential table rules (an entry is only returned under its exact key, "
         "re-run here) stored moves are legal where they are replayed. NOT decided: non-empty line, at least one report, timing.")
     ck.trusted = ["rustc front end and MIR construction", "extractor decoding", "64-bit hash collisions ignored"]
-    ck.not_decided = ["the line is non-empty and at least one report is made before the search ends", "effects of eviction and scheduling on which line is reported"]
+    ck.not_decided = ["the line is non-empty and at least one report is made before the search ends (only the necessary condition I10 is decided: the deepening loop cannot be left before the first iteration's workers ran)", "effects of eviction and scheduling on which line is reported"]
     ck.run_rule(s3_s4_inserts)
     ck.run_rule(s2_s5_line_walk)
     ck.run_rule(s1_sinks_and_priority)
     ck.run_rule(s6_plumbing)
     from .c08 import h1_h2_h5_influence, h6_single_source
     from .c15 import t1_key_check, t2_routing, t3_never_emptied
-    for r in (h1_h2_h5_influence, h6_single_source, t1_key_check, t2_routing, t3_never_emptied):
+    from .c07 import i10_first_iteration
+    for r in (h1_h2_h5_influence, h6_single_source, t1_key_check, t2_routing, t3_never_emptied, i10_first_iteration):
         ck.run_rule(r)
 
 
